@@ -320,7 +320,8 @@ def _writes_metadata(v, i, m):
     # a user function that annotates the metadata entry it is handed (the
     # entry of the table being transformed: the copy, when inplace=False)
     if m is not None:
-        m['seen by f'] = float(np.sum(v))
+        # (something that does not depend on the order of the entries)
+        m['seen by f'] = '%s:%d' % (i, int(np.count_nonzero(v)))
     return v * 2
 
 
